@@ -300,8 +300,8 @@ pub fn drive<S, F>(
     let config = Config {
         cases: cases as u32,
         failure_persistence: None,
-        max_shrink_iters: 400,
-        max_shrink_time: 120_000,
+        max_shrink_iters: 2000,
+        max_shrink_time: 240_000,
         ..Config::default()
     };
     let rng = TestRng::from_seed(RngAlgorithm::ChaCha, &shard.rng_seed(sub));
@@ -749,15 +749,36 @@ fn run_regressions(id: &str, exe: &Path) -> (usize, Vec<(PathBuf, String)>) {
         })
         .unwrap_or_default();
     files.sort();
+    let known: Vec<String> = load_known(id)
+        .into_iter()
+        .filter(|k| k.status == "known")
+        .map(|k| k.signature)
+        .collect();
     let mut failed = vec![];
     for f in &files {
+        // a saved input that demonstrates a *known* finding is expected to
+        // fail with exactly that signature
+        let expected_known: Option<String> = std::fs::read(f)
+            .ok()
+            .and_then(|b| serde_json::from_slice::<ReplayFile>(&b).ok())
+            .map(|r| r.signature)
+            .filter(|s| known.contains(s));
         let out = std::process::Command::new(exe)
             .arg("replay")
             .arg(f)
             .stdin(std::process::Stdio::null())
             .output();
         match out {
-            Ok(o) if o.status.code() == Some(0) => {}
+            Ok(o) if o.status.code() == Some(0) => {
+                if let Some(sig) = &expected_known {
+                    println!(
+                        "NOTE property={} saved input {} no longer reproduces known finding {}",
+                        id,
+                        f.display(),
+                        sig
+                    );
+                }
+            }
             Ok(o) => {
                 let text = String::from_utf8_lossy(&o.stdout).to_string();
                 let detail = text
@@ -766,6 +787,11 @@ fn run_regressions(id: &str, exe: &Path) -> (usize, Vec<(PathBuf, String)>) {
                     .unwrap_or("")
                     .trim()
                     .to_string();
+                if let Some(sig) = &expected_known {
+                    if detail.starts_with(&format!("signature={} ", sig)) {
+                        continue;
+                    }
+                }
                 failed.push((f.clone(), format!("exit {:?} {}", o.status.code(), detail)));
             }
             Err(e) => failed.push((f.clone(), format!("cannot run: {e}"))),
@@ -779,8 +805,43 @@ fn first_line(s: &str, max: usize) -> String {
     l.chars().take(max).collect()
 }
 
-pub fn run_worker(def: &PropertyDef, args: &[String]) -> i32 {
+static PROCESS_DIR: std::sync::OnceLock<tempfile::TempDir> = std::sync::OnceLock::new();
+
+/// Per-process scratch directory (removed at normal process exit is not
+/// guaranteed for statics, so workers remove it explicitly).
+pub fn process_dir() -> &'static Path {
+    PROCESS_DIR
+        .get_or_init(|| {
+            tempfile::Builder::new()
+                .prefix("sv-proc-")
+                .tempdir()
+                .expect("process tempdir")
+        })
+        .path()
+}
+
+/// File the process-global audit trail provider appends to.
+pub fn audit_file_path() -> PathBuf {
+    process_dir().join("audit.dat")
+}
+
+/// Process-wide initialisation shared by workers and replays.
+pub fn init_process() {
     install_quiet_panic_hook();
+    // production builds (debug assertions off) require an audit provider
+    sos_backend::audit::init_providers(vec![sos_backend::audit::new_fs_provider(
+        audit_file_path(),
+    )]);
+}
+
+fn cleanup_process() {
+    if let Some(d) = PROCESS_DIR.get() {
+        let _ = std::fs::remove_dir_all(d.path());
+    }
+}
+
+pub fn run_worker(def: &PropertyDef, args: &[String]) -> i32 {
+    init_process();
     let tier = if args[0] == "thorough" {
         Tier::Thorough
     } else {
@@ -802,11 +863,12 @@ pub fn run_worker(def: &PropertyDef, args: &[String]) -> i32 {
     let mut rep = Report::default();
     (def.run)(&shard, &mut rep);
     std::fs::write(&out, serde_json::to_vec(&rep).unwrap()).unwrap();
+    cleanup_process();
     0
 }
 
 pub fn run_replay(def: &PropertyDef, file: &Path) -> i32 {
-    install_quiet_panic_hook();
+    init_process();
     let Ok(bytes) = std::fs::read(file) else {
         eprintln!("cannot read {}", file.display());
         return 2;
@@ -830,6 +892,7 @@ pub fn run_replay(def: &PropertyDef, file: &Path) -> i32 {
     let sub = rf.sub.clone();
     let case = rf.case.clone();
     let (_, res) = guarded(|| (CaseInfo::default(), (def.replay)(&shard, &sub, &case)));
+    cleanup_process();
     match res {
         Ok(()) => {
             println!("replay passed: {}", file.display());
